@@ -52,6 +52,9 @@ def generator_class(src: Path):
     return importlib.import_module("protocol_code_generator.generate.code_generator").ProtocolCodeGenerator
 
 
+REUSE_INSTANCE = True
+
+
 def generate(src: Path, xml_root: Path, out: Path | None = None, warmups=()):
     """Runs the real generator; returns None on success or the exception it raised.  warmups: (xml_root, out) pairs generated first,
     in the same process with the same imported generator (a run must not depend on what ran before it)."""
@@ -64,9 +67,32 @@ def generate(src: Path, xml_root: Path, out: Path | None = None, warmups=()):
                 cls(Path(wx)).generate(Path(wo))
         except Exception:
             pass
+    inst = cls(Path(xml_root))
+    if REUSE_INSTANCE:
+        # the SAME instance has already generated an earlier revision of this tree (other enum ordinals and underlying types):
+        # generation is a function of the XML as it is now, not of what the instance has seen before
+        import re
+        import shutil
+        import tempfile
+        backup = {f: f.read_text() for f in Path(xml_root).rglob("protocol.xml")}
+        scratch_out = Path(tempfile.mkdtemp(prefix="decoy-out-", dir=str(Path(xml_root).parent)))
+        try:
+            for f, t in backup.items():
+                t2 = re.sub(r"(<value name=\"[^\"]*\">)(\d+)(</value>)", lambda m: m.group(1) + str(int(m.group(2)) + 1) + m.group(3), t)
+                t2 = re.sub(r"(<enum name=\"[^\"]*\" type=\")char(\")", r"\1short\2", t2)
+                f.write_text(t2)
+            try:
+                with contextlib.redirect_stdout(buf):
+                    inst.generate(scratch_out)
+            except Exception:
+                pass
+        finally:
+            for f, t in backup.items():
+                f.write_text(t)
+            shutil.rmtree(scratch_out, ignore_errors=True)
     try:
         with contextlib.redirect_stdout(buf):
-            cls(Path(xml_root)).generate(Path(out))
+            inst.generate(Path(out))
     except Exception as e:       # the generator signals rejection with arbitrary exception classes
         return e
     return None
